@@ -152,6 +152,7 @@ def procCase (inp impl : String) : CaseOut :=
         ("C05", !it.escaped, "a panic escaped the actor"),
         ("C06", !(it.escaped && tr.contains (.ev .maxRestarts)), "a panic escaped after the restart budget was exhausted"),
         ("C07", it.flags.isEmpty, s!"malformed or flagged token {it.flags.headD ""} (a poison pill visible to Receive?)"),
+        ("C03", !(it.reg && !it.open_), "the actor is still registered (what senders send is accepted) but its inbox is not open: accepted messages are never handled"),
         ("C02", noReopen tr, "the inbox was re-opened after it had been stopped (a second worker can run: mutual exclusion is lost)"),
         ("C04", noReopen tr && lifecycleOK tr, "life-cycle shape violated (Initialized, Started, messages, one final Stopped per incarnation; nothing afterwards)"),
         ("C05", lifecycleOK tr || (restartNumbers tr).isEmpty,
